@@ -28,7 +28,7 @@ EXPLANATION = (
     "interpreted on one n-ary node of 16, 32, 128 and 256 operands (five node families) and on a fixed formula in "
     "environments holding 0, 40 and 80 unrelated symbols; cost = interpreted steps + sizes handed to linear-time "
     "primitives (list membership, copies, sorting): the cost per further operand does not grow with the width and the "
-    "cost does not grow with the environment (R5).  On the real manager `t in manager` and the substitution of a tower for a symbol cost the same at nesting depth 4, 8 and 12 up to the number of nodes, without a call stack that grows with the nesting (part of R4).  SmtLibSolver.add_assertion / is_sat on a maximally shared tower: the cost follows the nodes, not the paths (R6).")
+    "cost does not grow with the environment (R5).  On the real manager `t in manager` and the substitution of a tower for a symbol cost the same at nesting depth 4, 8 and 12 up to the number of nodes, without a call stack that grows with the nesting (part of R4).  SmtLibSolver.add_assertion / is_sat on a maximally shared tower: the cost follows the nodes, not the paths; a script read from text and one built in memory, written again in let-DAG form: cost and text length follow the nodes (R6).  Function interpretations - also ones whose body mentions another interpreted function - applied to nests f(f(...f(a))) of depth 8 / 16 / 32: cost linear in the nesting (R7).")
 NOT_DECIDED = ["constants of the linear bound", "the tree printers (not claimed by the property)"]
 
 # (class or module, function) -> reason.  Cycles entirely inside this set are accepted.
@@ -271,7 +271,41 @@ def run(ctx):
                                 % (api, c4, c8, c12, d1, d2), "pysmt/smtlib/solver.py")
                 else:
                     rs.ok({"call": api, "tower_depths": [4, 8, 12], "cost": [c4, c8, c12]})
-        ctx.floor(rs, 2)
+        # scripts written in let-DAG form (daggify=True): one read from text, one built in memory
+        from . import text_deep as td
+        kind, data = td.script_cost(repo)
+        if kind != "ok":
+            rs.unrec("script serialisation cost: %s" % data)
+        else:
+            for how, (costs, sizes) in sorted(data.items()):
+                # 3 more nodes per level: cost and text length at depth 12 stay below twice those at depth 8; path by path they
+                # are 16 times as large
+                if costs[2] > 2 * costs[1] + 200 or sizes[2] > 2 * sizes[1] + 50:
+                    ctx.finding(rs, "script-cost|%s" % how, "SmtLibScript.serialize(daggify=True) of a %s over a shared tower of depth 4 / 8 / 12 "
+                                "costs %s and writes %s characters: the sharing is lost - the term is written path by path"
+                                % (how, costs, sizes), "pysmt/smtlib/script.py")
+                else:
+                    rs.ok({"call": "SmtLibScript.serialize(daggify=True), " + how, "tower_depths": [4, 8, 12], "cost": costs, "characters": sizes})
+        ctx.floor(rs, 4)
+
+    if ctx.want("R7"):
+        rs = ctx.rule("R7", "function interpretations applied to a nest of applications f(f(...f(a))): the cost is linear in the nesting")
+        from . import c05_deep
+        for cls, kind, data in c05_deep.interp_cost_results():
+            nm = cls.split(".")[-1]
+            if kind != "ok":
+                rs.unrec("%s: %s" % (nm, data))
+                continue
+            for variant, (c8, c16, c32) in sorted(data.items()):
+                # linear: the second increment is twice the first; quadratic: four times
+                d1, d2 = c16 - c8, c32 - c16
+                if d2 > 3 * d1 + 300:
+                    ctx.finding(rs, "interpretation-cost|%s|%s" % (nm, variant), "%s.substitute with interpretations (%s) on f-nests of depth 8 / 16 / 32 "
+                                "costs %d / %d / %d: the increments (%d, %d) grow faster than the nesting - already rewritten arguments are "
+                                "walked again at every level" % (nm, variant, c8, c16, c32, d1, d2), "pysmt/substituter.py")
+                else:
+                    rs.ok({"substituter": nm, "interpretations": variant, "depths": [8, 16, 32], "cost": [c8, c16, c32]})
+        ctx.floor(rs, 4)
 
     if ctx.want("R4"):
         rs = ctx.rule("R4", "real manager: the cost of one construction does not grow with the size of its operands")
